@@ -106,3 +106,17 @@ func VerifC16_Readdir() {
 	n1 := verifReaddirStep(mod, listing, 0, "bufLen1")
 	verifReaddirStep(mod, listing, uint64(n1), "bufLen2")
 }
+
+// VerifC16_ReaddirRewind: after two calls with arbitrary buffer lengths, a call with cookie 0 rewinds the directory: it
+// yields the same listing from the start ('.', '..', entries), whatever the earlier buffer sizes were.
+//verif:opts split=entries:2 wall=1500 tier=thorough
+func VerifC16_ReaddirRewind() {
+	all := []string{"a", "bb", "c"}
+	k := verifrt.Choose("entries", 2) // an empty directory or one entry (the rewind logic does not depend on more)
+	listing := append([]string{".", ".."}, all[:k]...)
+	mod, _ := verifWasiModule(&verifDirFS{names: all[:k]})
+	verifrt.Assume(len(mod.MemoryInstance.Buffer) >= 65536)
+	n1 := verifReaddirStep(mod, listing, 0, "bufLen1")
+	verifReaddirStep(mod, listing, uint64(n1), "bufLen2")
+	verifReaddirStep(mod, listing, 0, "bufLen3")
+}
